@@ -31,6 +31,21 @@ def handle (line : String) : String :=
     match a.toTy, b.toTy with
     | some a, some b => (match d04Classes liveTable a b with | [] => "-" | cs => ",".intercalate cs)
     | _, _ => "bad-op"
+  | some (.atom "subst" :: .node kvs :: [t]) =>
+    -- `subst ((0 T) (1 U)) term`
+    let m : Option TvMap := kvs.mapM fun kv => match kv with
+      | .node [.atom i, v] => do some ((← i.toNat?), (← v.toTy))
+      | _ => none
+    match m, t.toTy with
+    | some m, some t => (subst m t).show
+    | _, _ => "bad-op"
+  | some (.atom "d14subst" :: .node kvs :: [a, b]) =>
+    let m : Option TvMap := kvs.mapM fun kv => match kv with
+      | .node [.atom i, v] => do some ((← i.toNat?), (← v.toTy))
+      | _ => none
+    match m, a.toTy, b.toTy with
+    | some m, some a, some b => (match d14Subst m a b with | [] => "-" | cs => ",".intercalate cs)
+    | _, _, _ => "bad-op"
   | some (.atom "unite" :: ts) =>
     match Sexp.toTys ts with
     | some ts => (unite ts).show
